@@ -14,7 +14,8 @@
 EXTENDS Edits, Json
 
 CONSTANTS MaxImports,     \* 0..3
-          UseLayouts,     \* subset of Layouts
+          UseLayouts,     \* subset of Layouts: the layouts of documents with at most two imports
+          Layouts3,       \* subset of Layouts: the layouts of documents with three imports
           NExporters      \* subset of {1, 2}
 
 VARIABLE st
@@ -36,7 +37,8 @@ Init == st = [lvl |-> "root", mods |-> <<>>, imps |-> <<>>, nexp |-> 0, layout |
 
 Next ==
   \/ /\ st.lvl = "root"
-     /\ \E ms \in ModSeqs, ne \in NExporters, lay \in UseLayouts :
+     /\ \E ms \in ModSeqs, ne \in NExporters :
+        \E lay \in (IF Len(ms) >= 3 THEN Layouts3 ELSE UseLayouts) :
           st' = [lvl |-> "shape", mods |-> ms, imps |-> <<>>, nexp |-> ne, layout |-> lay]
   \/ /\ st.lvl = "shape"
      /\ \E as \in AttrSeqs(Len(st.mods)) :
